@@ -13,6 +13,13 @@
 //   P line : checks the harness can make alone: finite vertices, first vertex = previous end point,
 //            last vertex = requested end point, last_ctrl as documented, chord count / deviation of
 //            arcs in floating point, commands() == direct calls, regular polygon vertices.
+//   Polygon::fillet: every fillet case (whole polygon "P tol n x y .. m r .." or the older single-corner form) is decided
+//            from the ARGUMENTS alone (see "Polygon::fillet: oracle from the arguments alone" below): effective radius per
+//            corner, tangent points, arc centre, runs of neighbouring corners apart, convex input -> result inside it and
+//            simple, area = original -/+ corner cut-offs.  Sub-cases "# corners", "# global" (data "skip ..": the driver
+//            answers "arc *") and "# corner <i>" (one run as an arc for the driver's exact on-circle / deviation test).
+//            Keys fillet:count / overlap / radius / tangent-point / corner / sagitta / outside / self-intersection / area /
+//            repeated-vertex-crash; fillet:deviation is ONLY the recorded one-point case (corner kept > 7 tol from its arc).
 // The driver (ocaml/c15_driver.ml) answers M (model post-state, NaN prediction at t=0) and
 // S (vertices on the exact curve in order; polyline within K*tol of it, exact arithmetic).
 #include <algorithm>
@@ -976,7 +983,7 @@ static std::string fnum(ld x) {
 }
 
 // head: the text a replay re-parses (new format "P ..." or the old single-corner format)
-static void run_fillet_poly(Out& out, const FilletCase& f, const std::string& head) {
+static void run_fillet_poly(Out& out, const FilletCase& f, const std::string& head, bool always_arc = false) {
     const size_t n = f.in.size();
     if (n < 3 || f.radii.empty() || !(f.tol > 0)) return;
     bool dup = false, fin = std::isfinite(f.tol);
@@ -1231,7 +1238,7 @@ static void run_fillet_poly(Out& out, const FilletCase& f, const std::string& he
         }
         std::vector<size_t> pick;
         static unsigned long turn = 0;  // one run per polygon (quick), per fourth polygon (thorough): the driver's exact test is slow
-        if (turn++ % g_fillet_arc_every == 0) {
+        if (turn++ % g_fillet_arc_every == 0 || always_arc) {
             if (firstclamp != n && (turn & 2)) pick.push_back(firstclamp);
             else if (best != n) pick.push_back(best);
         }
@@ -1436,7 +1443,7 @@ static void run_shape(Out& out, const std::string& kind, const std::string& payl
         }
         std::string hd;
         for (size_t i = 0; i < 4 + 2 * n; i++) hd += (i ? " " : "") + w[i];
-        run_fillet_poly(out, f, hd);
+        run_fillet_poly(out, f, hd, true);
         out.count("fillet:single-corner-form");
     }
 }
